@@ -39,9 +39,9 @@ pub struct RunCtx {
 
 impl RunCtx {
     pub fn new(prop: &str, tier: Tier, seed: u64) -> RunCtx {
-        let work = PathBuf::from(format!("{}/work/{}", VERIF, prop));
+        let work = PathBuf::from(format!("{}/{}", std::env::var("BBV_WORK_DIR").unwrap_or_else(|_| format!("{}/work", VERIF)), prop));
         std::fs::create_dir_all(&work).ok();
-        RunCtx { prop: prop.to_string(), tier, seed, work, t0: Instant::now(), write_evidence: true }
+        RunCtx { prop: prop.to_string(), tier, seed, work, t0: Instant::now(), write_evidence: std::env::var("BBV_NO_EVIDENCE").is_err() }
     }
     pub fn wall(&self) -> f64 {
         self.t0.elapsed().as_secs_f64()
@@ -165,13 +165,14 @@ pub fn finish(rc: &RunCtx, out: Outcome) -> ! {
         );
         std::process::exit(0);
     }
-    std::fs::create_dir_all(format!("{}/replays", VERIF)).ok();
+    let replay_dir = std::env::var("BBV_REPLAY_DIR").unwrap_or_else(|_| format!("{}/replays", VERIF));
+    std::fs::create_dir_all(&replay_dir).ok();
     let mut seen = std::collections::BTreeSet::new();
     for v in &unknown {
         if !seen.insert(v.sig.clone()) {
             continue;
         }
-        let path = format!("{}/replays/{}-{}.json", VERIF, rc.prop, sanitize(&v.sig));
+        let path = format!("{}/{}-{}.json", replay_dir, rc.prop, sanitize(&v.sig));
         let mut doc = v.replay.clone();
         doc["property"] = json!(rc.prop);
         doc["signature"] = json!(v.sig);
